@@ -6,6 +6,8 @@ import (
 	"strings"
 	"testing"
 
+	"nrisim/c15types"
+
 	"github.com/containerd/nri/pkg/api"
 	"github.com/containerd/ttrpc"
 	"google.golang.org/protobuf/proto"
@@ -19,8 +21,9 @@ type C09W struct {
 	NCtrs   int    `json:"nctrs"`
 	Dist    string `json:"dist"` // small | uniform | near-limit | one-over | big-pods
 	Seed    int    `json:"seed"`
-	Second  bool   `json:"second"`  // a second plugin registers afterwards
-	Updates int    `json:"updates"` // updates the plugin returns from Synchronize
+	Second  bool   `json:"second"`            // a second plugin registers afterwards
+	Updates int    `json:"updates"`           // updates the plugin returns from Synchronize
+	NoSync  bool   `json:"no_sync,omitempty"` // the plugin has no Synchronize handler: the stub answers the (split) synchronization itself
 	CutDir  int    `json:"cut_dir,omitempty"`
 	CutOff  int    `json:"cut_off,omitempty"` // > 0: the plugin's connection is cut after this many bytes of the given direction (counted from the start of synchronization)
 }
@@ -62,6 +65,8 @@ func c09Gen(rng *rand.Rand, conf string, idx int) any {
 	}
 	if conf == "cut" {
 		w.CutDir, w.CutOff = rng.Intn(2), 1+rng.Intn(40000)
+	} else if rng.Intn(6) == 0 {
+		w.NoSync, w.Updates = true, 0
 	}
 	return w
 }
@@ -156,7 +161,16 @@ func c09Run(t *testing.T, wl any, sc SchedCfg) *Result {
 			regime = "cut"
 		}
 		res.Probe("C09.regime." + regime)
-		p1 := h.AddPlugin("syn", "10", 0)
+		var rec *c15types.Rec
+		var p1 *Plug
+		if w.NoSync {
+			rec = &c15types.Rec{}
+			// implements StartContainer only (bit 5 of the handler list), no Synchronize, no Configure
+			p1 = h.AddCustomPlugin("syn", "10", c15types.New(1<<5, rec))
+			res.Probe("C09.plugin-without-synchronize-handler")
+		} else {
+			p1 = h.AddPlugin("syn", "10", 0)
+		}
 		for k := 0; k < w.Updates; k++ {
 			u := &api.ContainerUpdate{ContainerId: fmt.Sprintf("ctr%d", k)}
 			u.SetLinuxCPUShares(uint64(100 + k))
@@ -205,6 +219,13 @@ func c09Run(t *testing.T, wl any, sc SchedCfg) *Result {
 				marker[en.Plugin] = true
 			}
 		}
+		if rec != nil {
+			for _, c := range rec.Snapshot() {
+				if c.Ctr.GetId() == "marker" {
+					marker["syn"] = true
+				}
+			}
+		}
 		var cbErr string
 		var cbUpd []*api.ContainerUpdate
 		for _, ev := range h.SyncLog {
@@ -229,7 +250,9 @@ func c09Run(t *testing.T, wl any, sc SchedCfg) *Result {
 		}
 		if cbErr == "" {
 			// the runtime considers the plugin synchronized
-			if len(syncs) != 1 {
+			if w.NoSync {
+				// nothing to compare: there is no handler
+			} else if len(syncs) != 1 {
 				res.Violate("C09.exact-state", "synchronization succeeded for the runtime but the plugin's handler was invoked %d times (%s)", len(syncs), desc)
 			} else {
 				s := syncs[0]
